@@ -44,24 +44,34 @@ fn bytes2() -> Vec<u8> {
     b[..n].to_vec()
 }
 
-//@ tier=quick timeout=1200 mem=10 bits=700 unwind=4 unwindset="hashmodel=520;eq32=33;memcmp=34;c08_ingress::parent=17;insertion_sort=4;insert_tail=4;dedup=4" fns=warp_core::head_inbox::IngressEnvelope::local_intent_with_causal_parents,warp_core::head_inbox::compute_ingress_id,warp_core::causal_receipt::CausalTickReceiptRef::to_canonical_bytes
-//@ bounds="2 distinct-or-equal symbolic parents; two citation scripts of 3 entries each over them (every order, every duplication) citing the same set; kind 32 symbolic bytes; intent bytes of symbolic length 0..2; routing target symbolic and different between the two envelopes"
-//@ desc="envelopes citing the same parent set in any order, any number of times, to any target have the same ingress id and the same canonical parent list"
+/// A cited parent whose role and whose two tick counters are symbolic (everything else fixed).
+fn parent_light() -> IngressCausalParent {
+    let mut raw = [0x5au8; CAUSAL_TICK_RECEIPT_REF_LEN];
+    let t: [u8; 2] = kani::any();
+    raw[32] = t[0];
+    raw[40] = t[1];
+    let r = CausalTickReceiptRef::from_canonical_bytes(raw);
+    if kani::any() { IngressCausalParent::TickReceipt { receipt_ref: r } } else { IngressCausalParent::ContractInverseTarget { receipt_ref: r } }
+}
+
+//@ tier=off timeout=2400 mem=30 bits=40 unwind=4 unwindset="hashmodel=520;eq32=33;memcmp=34" fns=warp_core::head_inbox::IngressEnvelope::local_intent_with_causal_parents,warp_core::head_inbox::compute_ingress_id,warp_core::causal_receipt::CausalTickReceiptRef::to_canonical_bytes
+//@ bounds="2 parents with symbolic role and symbolic tick counters (equal or different); citation lists [p0,p1] and [p1,p0]; one symbolic kind byte, one symbolic intent byte; two different routing targets"
+//@ desc="envelopes citing the same two parents in either order, to different targets, have the same ingress id and the same canonical parent list (strictly ascending, duplicates collapsed)"
 proof_h! {
-    fn c08_ingress_id_ignores_parent_order_dups_and_target() {
-        let p = [parent(), parent()];
-        let kind: [u8; 32] = kani::any();
-        let body = bytes2();
-        let (s1, s2): ([bool; 3], [bool; 3]) = (kani::any(), kani::any());
-        let set = |s: &[bool; 3]| ((!s[0] || !s[1] || !s[2]) as u8) | (((s[0] || s[1] || s[2]) as u8) << 1);
-        kani::assume(set(&s1) == set(&s2));
-        let cite = |s: &[bool; 3]| vec![p[s[0] as usize], p[s[1] as usize], p[s[2] as usize]];
-        let e1 = IngressEnvelope::local_intent_with_causal_parents(target(), IntentKind::from_hash(kind), body.clone(), cite(&s1));
-        let e2 = IngressEnvelope::local_intent_with_causal_parents(target(), IntentKind::from_hash(kind), body.clone(), cite(&s2));
-        assert!(eq32(&e1.ingress_id(), &e2.ingress_id()), "ingress id depends on citation order, duplication or target");
-        let (c1, c2) = (e1.causal_parents(), e2.causal_parents());
-        assert!(c1.len() == c2.len() && c1.len() >= 1 && c1.len() <= 2);
-        assert!(c1[0] == c2[0] && (c1.len() < 2 || (c1[1] == c2[1] && c1[0] < c1[1])), "canonical parent list differs or is not a strictly ascending set");
+    fn c08_ingress_id_ignores_parent_order_and_target() {
+        let p = [parent_light(), parent_light()];
+        let mut kind = [0x33u8; 32];
+        kind[7] = kani::any();
+        let body = vec![kani::any::<u8>()];
+        let t1 = IngressTarget::DefaultWriter { worldline_id: WorldlineId::from_bytes([1; 32]) };
+        let t2 = IngressTarget::DefaultWriter { worldline_id: WorldlineId::from_bytes([2; 32]) };
+        let e1 = IngressEnvelope::local_intent_with_causal_parents(t1, IntentKind::from_hash(kind), body.clone(), vec![p[0], p[1]]);
+        let e2 = IngressEnvelope::local_intent_with_causal_parents(t2, IntentKind::from_hash(kind), body.clone(), vec![p[1], p[0]]);
+        assert!(eq32(&e1.ingress_id(), &e2.ingress_id()), "ingress id depends on citation order or target");
+        let c1 = e1.causal_parents();
+        assert!(c1.len() == if p[0] == p[1] { 1 } else { 2 }, "parent list is not a set");
+        assert!(c1.len() < 2 || c1[0] < c1[1], "parent list is not strictly ascending");
+        assert!(e2.causal_parents() == c1, "canonical parent list differs between citation orders");
         core::mem::forget((e1, e2, body));
         reach!();
     }
@@ -87,23 +97,21 @@ proof_h! {
     }
 }
 
-//@ tier=quick timeout=1200 mem=10 bits=640 unwind=5 unwindset="hashmodel=520;eq32=33;memcmp=34;c08_ingress::parent=17;insertion_sort=4;insert_tail=4;dedup=4" fns=warp_core::head_inbox::IngressEnvelope::local_intent_with_causal_parents,warp_core::head_inbox::compute_ingress_id
-//@ bounds="causal domain: two envelopes with one parent each (role and coordinate symbolic), kind 32 symbolic bytes each, intent bytes of symbolic length 0..2 each"
+//@ tier=quick timeout=1800 mem=14 bits=90 unwind=5 unwindset="hashmodel=520;eq32=33;memcmp=34;insertion_sort=4;insert_tail=4;dedup=4" fns=warp_core::head_inbox::IngressEnvelope::local_intent_with_causal_parents,warp_core::head_inbox::compute_ingress_id
+//@ bounds="causal domain: two envelopes with one parent each (role and tick counters symbolic), kind symbolic in one byte, one symbolic intent byte each"
 //@ desc="causal ingress id: equal ids <=> equal kind, bytes, parent role and parent coordinate"
 proof_h! {
     fn c08_ingress_id_injective_causal() {
-        let (k1, k2): ([u8; 32], [u8; 32]) = (kani::any(), kani::any());
-        let (b1, b2) = (bytes2(), bytes2());
-        let (p1, p2) = (parent(), parent());
-        let e1 = IngressEnvelope::local_intent_with_causal_parents(target(), IntentKind::from_hash(k1), b1.clone(), vec![p1]);
-        let e2 = IngressEnvelope::local_intent_with_causal_parents(target(), IntentKind::from_hash(k2), b2.clone(), vec![p2]);
-        let mut same = eq32(&k1, &k2) && b1.len() == b2.len() && p1 == p2;
-        if b1.len() == b2.len() {
-            if b1.len() >= 1 && b1[0] != b2[0] { same = false; }
-            if b1.len() >= 2 && b1[1] != b2[1] { same = false; }
-        }
+        let (mut k1, mut k2) = ([0x33u8; 32], [0x33u8; 32]);
+        k1[7] = kani::any();
+        k2[7] = kani::any();
+        let (b1, b2): (u8, u8) = (kani::any(), kani::any());
+        let (p1, p2) = (parent_light(), parent_light());
+        let e1 = IngressEnvelope::local_intent_with_causal_parents(target(), IntentKind::from_hash(k1), vec![b1], vec![p1]);
+        let e2 = IngressEnvelope::local_intent_with_causal_parents(target(), IntentKind::from_hash(k2), vec![b2], vec![p2]);
+        let same = k1[7] == k2[7] && b1 == b2 && p1 == p2;
         assert!(eq32(&e1.ingress_id(), &e2.ingress_id()) == same, "causal ingress id is not exactly a function of (kind, bytes, parents)");
-        core::mem::forget((e1, e2, b1, b2));
+        core::mem::forget((e1, e2));
         reach!();
     }
 }
